@@ -5,7 +5,24 @@
    checks in the code's order, returning the state left behind also when the call panics);
    Proofs/C11Spec.v (the specification: a plain `list (list T)` with insert_at / remove_at /
    keep_idx / column_of, `abs`, the invariant `Inv`, `fits`); Proofs/C11Ops.v, C11Transpose.v,
-   C11P.v (proofs). *)
+   C11P.v (proofs).
+   Second extension wave, C11 builder (block after the session-3 assumption audit, 16 theorems):
+   the SLICE ALGEBRA — the builder methods Slice::not / and / or and both orders of the Slice2D
+   builder are functions of Model/Slices.v; C11_slice_builder_laws / C11_slice_algebra_laws /
+   C11_slice_atom_laws / C11_range_or_merge / C11_slice2d_builder_orders state what they must
+   accept, C11_count_accepted_closed_forms / C11_retained_size the closed forms of retain_mut's sizing
+   loop and that the retained size is the pair of counts,
+   C11_retain_respects_accepts / C11_retain_by_methods / C11_slice_normal_form that retention
+   depends on a slice only through `accepts` below the size; C11_partition_write_step / _cells / _frame: writes of
+   DISTINGUISHABLE values g(i, j) through a partition part (the session-3 fill is g = const; the
+   history theorem C11_refines_with_partitions now ranges over both); C11_transpose_forms_agree /
+   C11_transpose_twice; C11_view_write_is_set (writes through MatrixView::from(&mut m) /
+   range_mut(full) = Matrix::set).
+   Second extension wave, builder GEN (appended block at the end): C11_generated_arith_matches_model ties
+   Model/Matrix.v to the Rust TEXT of the mutators — the retain closures, the insertion positions
+   and remove_row / remove_column / insert_row / insert_column as whole methods are re-translated
+   from src/matrices/mod.rs by tools/gen_arith.py on every run (Gen/Arith.v) and proved equal to
+   the model in Proofs/GenMatrixP.v (notes/GEN.md). *)
 From Coq Require Import List ZArith NArith Bool Arith.
 From EasyML Require Import Base.Sx Model.Matrix Proofs.C11Spec Proofs.C11Ops Proofs.C11Transpose Proofs.C11P.
 From EasyML Require Import Model.MatrixViews Model.MatrixHistory Proofs.C12Partition Proofs.C11Part.
@@ -226,3 +243,319 @@ Print Assumptions C11_step_allocated.
 Print Assumptions C11_partition_fill_step.
 Print Assumptions C11_partition_fill_frame.
 Print Assumptions C11_refines_with_partitions.
+
+(* ======================================================================================== *)
+(* SECOND EXTENSION WAVE (C11 builder): the slice algebra, distinguishable writes through       *)
+(* partition parts, and the API forms of transposition / element writes.                        *)
+(* Definitions: Model/Slices.v (the builder methods Slice::not / and / or and the two orders    *)
+(* of the Slice2D builder as FUNCTIONS, `by_methods`), Model/MatrixHistory.v (write_part,       *)
+(* partition_write, XPartitionWrite); proofs: Proofs/C11Slices.v, C11Part.v, C11Forms.v.        *)
+(* ======================================================================================== *)
+From EasyML Require Import Model.Slices Proofs.C11Slices Proofs.C11Forms Proofs.C12P.
+
+(* the three builder methods: what the built slice accepts is the boolean combination of what
+   the arguments accept; hence an expression written with the methods accepts exactly what the
+   same expression written with the enum variants accepts.  (Today the methods box their
+   arguments, so the proofs are short; a builder that starts to simplify — seed C11-v2 merged
+   two ranges — has to be transcribed into Model/Slices.v and then owes these statements.) *)
+Theorem C11_slice_builder_laws : forall (a b : slice) (i : N),
+  slice_accepts (slice_not a) i = negb (slice_accepts a i) /\
+  slice_accepts (slice_and a b) i = (slice_accepts a i && slice_accepts b i)%bool /\
+  slice_accepts (slice_or a b) i = (slice_accepts a i || slice_accepts b i)%bool /\
+  slice_accepts (by_methods a) i = slice_accepts a i.
+Proof. exact (fun a b i => conj (accepts_not a i) (conj (accepts_and a b i) (conj (accepts_or a b i) (accepts_by_methods a i)))). Qed.
+
+(* "constructed via boolean logic operations in the same way as in predicate logic expressions":
+   De Morgan, double negation, commutativity, associativity, idempotence, distributivity,
+   absorption, units / zeros / complements — pointwise at every index *)
+Theorem C11_slice_algebra_laws : forall (a b c : slice) (i : N),
+  slice_accepts (slice_not (slice_and a b)) i = slice_accepts (slice_or (slice_not a) (slice_not b)) i /\
+  slice_accepts (slice_not (slice_or a b)) i = slice_accepts (slice_and (slice_not a) (slice_not b)) i /\
+  slice_accepts (slice_not (slice_not a)) i = slice_accepts a i /\
+  slice_accepts (slice_and a b) i = slice_accepts (slice_and b a) i /\
+  slice_accepts (slice_or a b) i = slice_accepts (slice_or b a) i /\
+  slice_accepts (slice_and a (slice_and b c)) i = slice_accepts (slice_and (slice_and a b) c) i /\
+  slice_accepts (slice_or a (slice_or b c)) i = slice_accepts (slice_or (slice_or a b) c) i /\
+  slice_accepts (slice_and a a) i = slice_accepts a i /\
+  slice_accepts (slice_or a a) i = slice_accepts a i /\
+  slice_accepts (slice_and a (slice_or b c)) i = slice_accepts (slice_or (slice_and a b) (slice_and a c)) i /\
+  slice_accepts (slice_or a (slice_and b c)) i = slice_accepts (slice_and (slice_or a b) (slice_or a c)) i /\
+  slice_accepts (slice_or a (slice_and a b)) i = slice_accepts a i /\
+  slice_accepts (slice_and a (slice_or a b)) i = slice_accepts a i /\
+  slice_accepts (slice_and a SAll) i = slice_accepts a i /\
+  slice_accepts (slice_or a SNone) i = slice_accepts a i /\
+  slice_accepts (slice_and a SNone) i = false /\
+  slice_accepts (slice_or a SAll) i = true /\
+  slice_accepts (slice_and a (slice_not a)) i = false /\
+  slice_accepts (slice_or a (slice_not a)) i = true /\
+  slice_accepts (slice_not SAll) i = slice_accepts SNone i.
+Proof. exact slice_algebra_laws. Qed.
+
+(* the atoms: an empty or reversed range accepts nothing; Single(k) is Range(k..k+1); the and of
+   two ranges is the range from the larger start to the smaller end *)
+Theorem C11_slice_atom_laws : forall (a b i k : N),
+  (b <= a -> slice_accepts (SRange a b) i = false) /\
+  slice_accepts (SSingle k) i = slice_accepts (SRange k (k + 1)) i /\
+  (forall a2 b2, slice_accepts (slice_and (SRange a b) (SRange a2 b2)) i
+                 = slice_accepts (SRange (N.max a a2) (N.min b b2)) i).
+Proof. exact atom_laws. Qed.
+
+(* what an `or` that merges two overlapping or touching ranges into ONE range has to produce:
+   smaller start .. LARGER end (`merged_range`); the end of the later-starting range
+   (`merged_range_slip`, seed C11-v2) is refuted in C11_nonvacuous_slices below *)
+Theorem C11_range_or_merge : forall a1 b1 a2 b2 : N, a1 < b1 -> a2 < b2 -> a2 <= b1 -> a1 <= b2 -> forall i,
+  slice_accepts (slice_or (SRange a1 b1) (SRange a2 b2)) i = slice_accepts (merged_range a1 b1 a2 b2) i.
+Proof. exact range_or_merge. Qed.
+
+(* the Slice2D builder: both orders build the same value, which accepts (r, c) exactly when the
+   row slice accepts r and the column slice accepts c *)
+Theorem C11_slice2d_builder_orders : forall (rows columns : slice) (r c : N),
+  slice2d_rows_then_columns rows columns = slice2d_columns_then_rows columns rows /\
+  slice2d_accepts (slice2d_rows_then_columns rows columns) r c = (slice_accepts rows r && slice_accepts columns c)%bool /\
+  slice2d_accepts (slice2d_columns_then_rows columns rows) r c = (slice_accepts rows r && slice_accepts columns c)%bool.
+Proof. exact slice2d_builder_orders. Qed.
+
+(* the sizing loop of retain_mut (`for i in 0..n { if slice.accepts(i) { accepted += 1 } }`) in
+   closed form — what a helper that does not loop has to return (seed C10-v1 returned 1 for a
+   Single outside 0..n): *)
+Theorem C11_count_accepted_closed_forms : forall n : N,
+  count_accepted SAll n = n /\
+  count_accepted SNone n = 0 /\
+  (forall i, count_accepted (SSingle i) n = if i <? n then 1 else 0) /\
+  (forall a b, count_accepted (SRange a b) n = N.min b n - a) /\
+  (forall s, count_accepted (slice_not s) n = n - count_accepted s n) /\
+  (forall s, count_accepted s n <= n) /\
+  (forall s t, count_accepted (slice_or s t) n + count_accepted (slice_and s t) n
+               = count_accepted s n + count_accepted t n).
+Proof. exact count_accepted_closed_forms. Qed.
+
+(* retention sees a Slice2D only through the indexes it accepts BELOW the matrix's size: two
+   slices that agree there retain the same matrix with the same outcome, in place and
+   allocating, from every valid state — so a builder may rewrite an expression exactly when it
+   preserves `accepts` *)
+Theorem C11_retain_respects_accepts : forall (T : Type) (s : matrix T) (a b : slice2d), Inv s ->
+  (forall i, i < m_rows s -> slice_accepts (s_rows a) i = slice_accepts (s_rows b) i) ->
+  (forall j, j < m_cols s -> slice_accepts (s_columns a) j = slice_accepts (s_columns b) j) ->
+  retain_mut s a = retain_mut s b /\ retain s a = retain s b.
+Proof. exact @retain_respects_accepts. Qed.
+
+(* in particular: method-built, columns-first = enum-built, rows-first (any state at all) *)
+Theorem C11_retain_by_methods : forall (T : Type) (s : matrix T) (rows columns : slice),
+  retain_mut s (slice2d_columns_then_rows (by_methods columns) (by_methods rows))
+    = retain_mut s (slice2d_rows_then_columns rows columns) /\
+  retain s (slice2d_columns_then_rows (by_methods columns) (by_methods rows))
+    = retain s (slice2d_rows_then_columns rows columns).
+Proof. exact @retain_by_methods. Qed.
+
+(* the size a retention leaves is the pair of counts of accepted indexes, and it panics exactly
+   when one of the counts is 0 (with C11_count_accepted_closed_forms: e.g. rows Range(a..b) on a
+   matrix of n rows leaves min(b, n) - a rows and panics iff that is 0) *)
+Theorem C11_retained_size : forall (T : Type) (s : matrix T) (a : slice2d), Inv s ->
+  (snd (retain_mut s a) = false <->
+     count_accepted (s_rows a) (m_rows s) = 0 \/ count_accepted (s_columns a) (m_cols s) = 0) /\
+  (snd (retain_mut s a) = true ->
+     m_rows (fst (retain_mut s a)) = count_accepted (s_rows a) (m_rows s) /\
+     m_cols (fst (retain_mut s a)) = count_accepted (s_columns a) (m_cols s)).
+Proof. exact @retained_size. Qed.
+
+(* a slice IS the set of indexes it accepts: on an axis of length n every slice accepts below n
+   exactly what the `or` of the Singles of its accepted indexes accepts, and retention by a
+   Slice2D is retention by these normal forms (slice_of_indexes [i1; i2; ...] =
+   Single(i1).or(Single(i2).or(... None()))) *)
+Theorem C11_slice_normal_form : forall (T : Type) (s : matrix T) (a : slice2d),
+  (forall sl n i, i < n -> slice_accepts (slice_of_indexes (filter (slice_accepts sl) (nrange n))) i = slice_accepts sl i) /\
+  (Inv s ->
+   let nf := mkSlice2D (slice_of_indexes (filter (slice_accepts (s_rows a)) (nrange (m_rows s))))
+                       (slice_of_indexes (filter (slice_accepts (s_columns a)) (nrange (m_cols s)))) in
+   retain_mut s a = retain_mut s nf /\ retain s a = retain s nf).
+Proof. exact (fun T s a => conj slice_normal_form (retain_by_normal_form s a)). Qed.
+
+(* mutation through a part of Matrix::partition with DISTINGUISHABLE values: writing g(i, j) to
+   cell (i, j) — the part's own index — of part k of an accepted partition is
+   map_mut_with_index with "g(row - rlo, column - clo) inside the part's rectangle
+   [rlo, rhi) x [clo, chi), unchanged outside" on the list of rows (so the cell mapping of the
+   part is pinned down, not only its extent: C11_partition_fill_step is the instance g = const) *)
+Theorem C11_partition_write_step : forall (T : Type) (m : list (list T)) rp cp k (g : N -> N -> T), rect m ->
+  partition_write (of_rows m) rp cp k g
+    = (of_rows (fst (spec_partition_write m rp cp k g)), snd (spec_partition_write m rp cp k g))
+  /\ rect (fst (spec_partition_write m rp cp k g)).
+Proof. exact @partition_write_refines. Qed.
+
+Theorem C11_partition_write_cells : forall (T : Type) (m : list (list T)) rp cp k (g : N -> N -> T) rlh clh, rect m ->
+  snd (spec_partition_write m rp cp k g) = true ->
+  nth_error (intervals 0 (rp ++ [nlen m])) (k / (length cp + 1)) = Some rlh ->
+  nth_error (intervals 0 (cp ++ [N.of_nat (ncols m)])) (k mod (length cp + 1)) = Some clh ->
+  fst (spec_partition_write m rp cp k g)
+  = mapi_from (fun i row => mapi_from (fun j x => if in_rect rlh clh i j then g (i - fst rlh) (j - fst clh) else x) 0 row) 0 m.
+Proof. exact @partition_write_cells. Qed.
+
+Theorem C11_partition_write_frame : forall (T : Type) (s : matrix T) rp cp k (g : N -> N -> T), Inv s ->
+  let r := partition_write s rp cp k g in
+  Inv (fst r) /\ m_rows (fst r) = m_rows s /\ m_cols (fst r) = m_cols s /\
+  (snd r = false <-> partition (m_rows s) (m_cols s) rp cp = Panic) /\
+  (snd r = false -> fst r = s).
+Proof. exact @partition_write_frame. Qed.
+
+(* the allocating and the in-place transposition (square swap loop or non-square rebuild) agree
+   from every valid state of an allocated matrix: same matrix, both return, the rows are the
+   columns of before, the size is swapped; and two transpositions in any mix give the matrix back *)
+Theorem C11_transpose_forms_agree : forall (T : Type) (s : matrix T), Inv s -> nlen (m_data s) <= usize_max ->
+  impl_step s OTransposeMut = impl_step s OTranspose /\
+  snd (impl_step s OTranspose) = true /\
+  abs (fst (impl_step s OTranspose)) = spec_transpose (abs s) /\
+  m_rows (fst (impl_step s OTranspose)) = m_cols s /\ m_cols (fst (impl_step s OTranspose)) = m_rows s.
+Proof. exact @transpose_forms_agree. Qed.
+
+Theorem C11_transpose_twice : forall (T : Type) (s : matrix T) (o1 o2 : op T), Inv s -> nlen (m_data s) <= usize_max ->
+  (o1 = OTranspose \/ o1 = OTransposeMut) -> (o2 = OTranspose \/ o2 = OTransposeMut) ->
+  impl_step (fst (impl_step s o1)) o2 = (s, true).
+Proof. exact @transpose_twice. Qed.
+
+(* element writes through view wrappers created between resizing steps: MatrixView::from(&mut m)
+   and m.range_mut(0..rows, 0..columns) (the C12 model's `write` through VMatrix / the full
+   VRange) change the storage exactly as Matrix::set does and refuse exactly the same indexes *)
+Theorem C11_view_write_is_set : forall (T : Type) (s : matrix T) r c (v : T), Inv s -> nlen (m_data s) <= usize_max ->
+  let res := match mset s r c v with Some s' => (m_data s', true) | None => (m_data s, false) end in
+  write (m_data s) (VMatrix (m_rows s) (m_cols s)) r c v = res /\
+  write (m_data s) (range_from (VMatrix (m_rows s) (m_cols s)) (ir_of_range 0 (m_rows s)) (ir_of_range 0 (m_cols s)))
+        r c v = res.
+Proof. exact @view_write_is_set. Qed.
+
+(* non-vacuity / witnesses: the nested pair of seed C11-v2 meets the hypotheses of
+   C11_range_or_merge and the slip's range differs from the `or` at index 2; a retention with a
+   method-built nested-range `or`; a write of distinguishable values through part 3 of a
+   partition of a 3 x 3 matrix after a resize *)
+Example C11_nonvacuous_slices :
+  (0 < 3 /\ 1 < 2 /\ 1 <= 3 /\ 0 <= 2) /\
+  slice_accepts (slice_or (SRange 0 3) (SRange 1 2)) 2 = true /\
+  slice_accepts (merged_range 0 3 1 2) 2 = true /\
+  slice_accepts (merged_range_slip 0 3 1 2) 2 = false /\
+  count_accepted (slice_or (SRange 0 3) (SRange 1 2)) 4 = 3 /\
+  (let s := mkM [1; 2; 3; 4; 5; 6; 7; 8; 9; 10; 11; 12] 3 4 in
+   Inv s /\ nlen (m_data s) <= usize_max /\
+   retain_mut s (slice2d_columns_then_rows (by_methods (SOr (SRange 1 2) (SRange 0 3)))
+                                           (by_methods (SOr (SRange 0 3) (SRange 1 2))))
+     = (mkM [1; 2; 3; 5; 6; 7; 9; 10; 11] 3 3, true) /\
+   xtrace s [XOp (ORemoveColumn 3); XPartitionWrite [1] [1] 3 (fun i j => 100 + 10 * i + j); XOp OTransposeMut]
+     = [(mkM [1; 2; 3; 5; 6; 7; 9; 10; 11] 3 3, true);
+        (mkM [1; 2; 3; 5; 100; 101; 9; 110; 111] 3 3, true);
+        (mkM [1; 5; 9; 2; 100; 110; 3; 101; 111] 3 3, true)]).
+Proof.
+  cbv zeta. repeat split; try reflexivity; try (vm_compute; discriminate).
+Qed.
+
+Print Assumptions C11_slice_builder_laws.
+Print Assumptions C11_slice_algebra_laws.
+Print Assumptions C11_slice_atom_laws.
+Print Assumptions C11_range_or_merge.
+Print Assumptions C11_slice2d_builder_orders.
+Print Assumptions C11_count_accepted_closed_forms.
+Print Assumptions C11_retain_respects_accepts.
+Print Assumptions C11_retain_by_methods.
+Print Assumptions C11_slice_normal_form.
+Print Assumptions C11_retained_size.
+Print Assumptions C11_partition_write_step.
+Print Assumptions C11_partition_write_cells.
+Print Assumptions C11_partition_write_frame.
+Print Assumptions C11_transpose_forms_agree.
+Print Assumptions C11_transpose_twice.
+Print Assumptions C11_view_write_is_set.
+
+(* ======================================================================================== *)
+(* GENERATED FROM THE SOURCE (builder GEN, second extension wave; appended block).            *)
+(* On every `./check C11`, tools/gen_arith.py re-reads src/matrices/mod.rs and translates the *)
+(* index arithmetic of the mutators into Gen/Arith.v (explicit machine arithmetic, both build *)
+(* profiles `md`): the closure handed to Vec::retain by remove_row / remove_column /          *)
+(* retain_mut as a state-passing function of the captured counters (r, c); Slice::accepts     *)
+(* as a Fixpoint generated from the enum's `match self`, Slice2D::accepts; the position       *)
+(* handed to Vec::insert by insert_row(_with) / insert_column(_with); and remove_row,         *)
+(* remove_column, insert_row, insert_column as whole methods (asserts, loop, size update).    *)
+(* Proofs/GenMatrixP.v proves them equal to the hand-written Model/Matrix.v the theorems      *)
+(* above are about, for every state satisfying the invariant whose element count (after an    *)
+(* insertion) fits a usize.  A source edit that changes the arithmetic breaks the lemma that  *)
+(* names the function (GENERATED-EQUIVALENCE-BROKEN <lemma>); a function that leaves the      *)
+(* translator's subset is not emitted, so the lemma no longer type-checks.                    *)
+(* `select kept data` = the stored values at the positions whose flag is true (Vec::retain);  *)
+(* `insert_each` = Vec::insert at each position in order (Model/Matrix.v).                    *)
+(* ======================================================================================== *)
+From EasyML Require Import Model.U64 Gen.Arith Proofs.GenMatrixP.
+
+Theorem C11_generated_arith_matches_model : forall (T : Type) md (m : matrix T),
+  Inv m ->
+  (* the three retain closures: keep flag and counter update of Model/Matrix.v retain_rc *)
+  (forall x r c, r < usize_max -> m_cols m <= usize_max ->
+     gen_Matrix_remove_row_retain md x (m_cols m) r c = Ok (negb (r =? x), rc_next (m_cols m) r c) /\
+     gen_Matrix_remove_column_retain md x (m_cols m) r c = Ok (negb (c =? x), rc_next (m_cols m) r c)) /\
+  (forall s r c, r < usize_max -> m_cols m <= usize_max ->
+     gen_Matrix_retain_mut_retain md s (m_cols m) r c = Ok (slice2d_accepts s r c, rc_next (m_cols m) r c)) /\
+  (* Slice::accepts (generated as a Fixpoint from the enum's `match self`) and Slice2D::accepts *)
+  (forall s i, gen_Slice_accepts s i = slice_accepts s i) /\
+  (forall s row column, gen_Slice2D_accepts md s row column = Ok (slice2d_accepts s row column)) /\
+  (* Vec::retain driven by them = retain_rc; remove_row / remove_column as whole methods *)
+  (nlen (m_data m) <= usize_max ->
+   (forall row,
+      match gen_Matrix_remove_row md (gm_of m) row (length (m_data m)) with
+      | Ok (kept, g) => remove_row m row = (mkM (select kept (m_data m)) (gm_rows g) (gm_columns g), true)
+      | Panic => remove_row m row = (m, false)
+      | Err _ => False
+      end) /\
+   (forall column,
+      match gen_Matrix_remove_column md (gm_of m) column (length (m_data m)) with
+      | Ok (kept, g) => remove_column m column = (mkM (select kept (m_data m)) (gm_rows g) (gm_columns g), true)
+      | Panic => remove_column m column = (m, false)
+      | Err _ => False
+      end) /\
+   (forall s, exists kept,
+      gen_retain (fun st => let '(r, c) := st in gen_Matrix_retain_mut_retain md s (m_cols m) r c)
+                 (0, 0) (length (m_data m)) = Ok kept /\
+      retain_rc (slice2d_accepts s) (m_cols m) (m_data m) 0 0 = select kept (m_data m))) /\
+  (* the insertion positions of all four insert methods are get_index(row, column) *)
+  (forall row column, row * m_cols m + column <= usize_max ->
+     gen_Matrix_insert_row_position md (gm_of m) row column = Ok (get_index m row column) /\
+     gen_Matrix_insert_row_with_position md (gm_of m) row column = Ok (get_index m row column) /\
+     gen_Matrix_insert_column_position md (gm_of m) column row = Ok (get_index m row column) /\
+     gen_Matrix_insert_column_with_position md (gm_of m) column row = Ok (get_index m row column)) /\
+  (* insert_row / insert_column as whole methods *)
+  (forall row (value : T), (m_rows m + 1) * m_cols m <= usize_max ->
+     match gen_Matrix_insert_row md (gm_of m) row with
+     | Ok (ps, g) =>
+         insert_row m row value =
+         (let '(d, fine) := insert_each (map (fun k => (k, value)) ps) (m_data m) in
+          if fine then (mkM d (gm_rows g) (gm_columns g), true) else (mkM d (m_rows m) (m_cols m), false))
+     | Panic => insert_row m row value = (m, false)
+     | Err _ => False
+     end) /\
+  (forall column (value : T), m_rows m * (m_cols m + 1) <= usize_max ->
+     match gen_Matrix_insert_column md (gm_of m) column with
+     | Ok (ps, g) =>
+         insert_column m column value =
+         (let '(d, fine) := insert_each (map (fun k => (k, value)) ps) (m_data m) in
+          if fine then (mkM d (gm_rows g) (gm_columns g), true) else (mkM d (m_rows m) (m_cols m), false))
+     | Panic => insert_column m column value = (m, false)
+     | Err _ => False
+     end).
+Proof. exact @generated_matrix_arith_matches_model. Qed.
+
+(* non-vacuity: the generated definitions evaluated by the kernel on a 2 x 3 matrix (the flags
+   drop row 1 / column 1, the positions are those of a new row 1 / a new column 3), and an
+   instance of every hypothesis *)
+Example C11_generated_nonvacuous :
+  let m := mkM [1; 2; 3; 4; 5; 6] 2 3 in
+  Inv m /\ nlen (m_data m) <= usize_max /\ (m_rows m + 1) * m_cols m <= usize_max /\
+  gen_Matrix_remove_row Debug (gm_of m) 1 6 = Ok ([true; true; true; false; false; false], mkGenMatrix 1 3) /\
+  gen_Matrix_remove_column Release (gm_of m) 1 6 = Ok ([true; false; true; true; false; true], mkGenMatrix 2 2) /\
+  gen_Matrix_remove_row Debug (gm_of m) 2 6 = Panic /\
+  gen_Matrix_insert_row Debug (gm_of m) 1 = Ok ([3; 4; 5], mkGenMatrix 3 3) /\
+  gen_Matrix_insert_column Debug (gm_of m) 3 = Ok ([6; 3], mkGenMatrix 2 4) /\
+  gen_Matrix_insert_column Debug (gm_of m) 4 = Panic /\
+  gen_Matrix_remove_row_retain Debug 0 0 0 0 = Panic /\
+  gen_Slice_accepts (SAnd (SRange 1 3) (SNot (SSingle 2))) 1 = true /\
+  gen_Matrix_retain_mut_retain Debug (mkSlice2D (SNot (SSingle 0)) SAll) 3 0 2 = Ok (false, (1, 0)) /\
+  gen_Matrix_remove_row_retain Release 0 3 usize_max 2 = Ok (true, (0, 0)).
+Proof.
+  cbv zeta. split; [unfold Inv, nlen; cbn; repeat split; discriminate|].
+  split; [vm_compute; discriminate|]. split; [vm_compute; discriminate|].
+  vm_compute. repeat split.
+Qed.
+
+Print Assumptions C11_generated_arith_matches_model.
